@@ -21,6 +21,10 @@ var c17Groups = map[string]func(ctx context.Context) c17Group{}
 
 func c17LogLevel() zerolog.Level { return c17run.LogLevel() }
 
+// c17T is the running test (the key store encryptor only accepts a reduced cost from a test).
+var c17T *testing.T
+
 func TestVerifC17(t *testing.T) {
+	c17T = t
 	c17run.Run(t, c17Groups)
 }
